@@ -1,6 +1,7 @@
 package engine
 
 import (
+	"errors"
 	"fmt"
 
 	gocvss20 "github.com/pandatix/go-cvss/20"
@@ -47,7 +48,8 @@ var I20 = &Impl[gocvss20.CVSS20, *gocvss20.CVSS20]{
 	},
 	ErrValue: gocvss20.ErrInvalidMetricValue,
 	IsBadAbv: func(err error) (string, bool) {
-		if e, ok := err.(*gocvss20.ErrInvalidMetric); ok && e != nil {
+		var e *gocvss20.ErrInvalidMetric
+		if errors.As(err, &e) && e != nil {
 			return e.Abv, true
 		}
 		return "", false
@@ -67,7 +69,8 @@ var I30 = &Impl[gocvss30.CVSS30, *gocvss30.CVSS30]{
 	},
 	ErrValue: gocvss30.ErrInvalidMetricValue,
 	IsBadAbv: func(err error) (string, bool) {
-		if e, ok := err.(*gocvss30.ErrInvalidMetric); ok && e != nil {
+		var e *gocvss30.ErrInvalidMetric
+		if errors.As(err, &e) && e != nil {
 			return e.Abv, true
 		}
 		return "", false
@@ -87,7 +90,8 @@ var I31 = &Impl[gocvss31.CVSS31, *gocvss31.CVSS31]{
 	},
 	ErrValue: gocvss31.ErrInvalidMetricValue,
 	IsBadAbv: func(err error) (string, bool) {
-		if e, ok := err.(*gocvss31.ErrInvalidMetric); ok && e != nil {
+		var e *gocvss31.ErrInvalidMetric
+		if errors.As(err, &e) && e != nil {
 			return e.Abv, true
 		}
 		return "", false
@@ -103,7 +107,8 @@ var I40 = &Impl[gocvss40.CVSS40, *gocvss40.CVSS40]{
 	},
 	ErrValue: gocvss40.ErrInvalidMetricValue,
 	IsBadAbv: func(err error) (string, bool) {
-		if e, ok := err.(*gocvss40.ErrInvalidMetric); ok && e != nil {
+		var e *gocvss40.ErrInvalidMetric
+		if errors.As(err, &e) && e != nil {
 			return e.Abv, true
 		}
 		return "", false
